@@ -119,6 +119,27 @@ func c10(args []string) {
 		}
 		jobs = append(jobs, &job{s, exp, Cfg{Buf: []int{1, 3, 128}[rep%3], Procs: []int{1, 2, 4}[rep%3], Sched: fmt.Sprintf("%d,300,600", rng.Intn(1<<30))}})
 	}
+	// directed shape: in-memory tags of a component output (Concatenator with GroupByTag) through a second MapToTags
+	for rep := 0; rep < c.Pick(3, 12); rep++ {
+		n := 2 + rep%3
+		s := &spec.Spec{Name: fmt.Sprintf("grouptags%d", rep), MaxTasks: 4, Sources: map[string]string{}}
+		src := &spec.Proc{Name: "src", Kind: spec.KFileSource}
+		for i := 0; i < n; i++ {
+			f := fmt.Sprintf("gt%d.txt", i)
+			src.Files = append(src.Files, f)
+			s.Sources[f] = f
+		}
+		s.Procs = append(s.Procs, src, &spec.Proc{Name: "T1", Kind: spec.KMapToTags, Tags: []*spec.TagRule{{Key: "grp", Rule: "idx"}}},
+			&spec.Proc{Name: "CC", Kind: spec.KConcat, OutPath: "grouped.txt", GroupBy: "grp"},
+			&spec.Proc{Name: "T2", Kind: spec.KMapToTags, Tags: []*spec.TagRule{{Key: "second", Rule: "const:s"}}},
+			&spec.Proc{Name: "use", Kind: spec.KCmd, Cmd: spec.BuildCmd("use", []spec.PortDecl{{Name: "in"}}, []spec.PortDecl{{Name: "out"}}, nil, nil, nil)})
+		s.Conns = append(s.Conns, &spec.Conn{From: "src.out", To: "T1.in"}, &spec.Conn{From: "T1.out", To: "CC.in"}, &spec.Conn{From: "CC.out", To: "T2.in"}, &spec.Conn{From: "T2.out", To: "use.in"})
+		exp := evalRef(s, nil)
+		if exp.Err != "" {
+			c.Broken("reference cannot evaluate the group-tags shape: " + exp.Err)
+		}
+		jobs = append(jobs, &job{s, exp, Cfg{Buf: []int{1, 3, 128}[rep%3], Procs: []int{1, 2, 4}[rep%3]}})
+	}
 	// directed shape: a task with a joined in-port beside ordinary in-ports (header + parts + footer)
 	for rep := 0; rep < c.Pick(6, 24); rep++ {
 		n := 1 + rep%4
@@ -192,6 +213,69 @@ func c10(args []string) {
 			c.Sample(map[string]interface{}{"graph": gen.Describe(j.s), "audit_files": len(exp.AuditFor), "records_compared": records, "max_depth": depth, "cfg": j.cfg})
 		}
 	})
+	// "each output file finalized by a task is accompanied by <path>.audit.json" must also hold at the instant the
+	// program dies: kills at the hook points of finalization
+	{
+		var tcs []topoCase
+		for _, k := range []string{"chain", "twoout", "extra"} {
+			for _, g := range []bool{false, true} {
+				tcs = append(tcs, topoCase{k, gen.ShapeNested, g, 2})
+			}
+		}
+		type kc struct {
+			tc topoCase
+			cp gen.CrashPoint
+		}
+		var kcs []kc
+		for _, tc := range tcs {
+			root := c.CaseDir()
+			s := gen.Topo(tc.kind, tc.shape, tc.gof, root, tc.n)
+			res := execSpec(c, root, s, Cfg{Buf: 128, Procs: 4}, gen.TopoBehav(tc.kind, evalRef(s, nil)), false, 0)
+			for _, p := range gen.CrashPoints(res.Events) {
+				if strings.HasPrefix(p.Point, "fin.") || p.Point == "task.finalized" || p.Point == "task.outputs_checked" || p.Point == "proc.outputs_sent" {
+					if c.Thorough() || rng.Intn(3) == 0 {
+						kcs = append(kcs, kc{tc, p})
+					}
+				}
+			}
+			c.Drop(root)
+		}
+		run.Parallel(len(kcs), func(i int) {
+			k := kcs[i]
+			root := c.CaseDir()
+			defer c.Drop(root)
+			s := gen.Topo(k.tc.kind, k.tc.shape, k.tc.gof, root, k.tc.n)
+			exp := evalRef(s, nil)
+			bh := gen.TopoBehav(k.tc.kind, exp)
+			res := execSpec(c, root, s, Cfg{Buf: 128, Procs: 4, Crash: k.cp.Env()}, bh, false, 0)
+			if res.Signal == "" {
+				return
+			}
+			snap := mon.SnapRoot(root)
+			n := 0
+			for _, t := range exp.Tasks {
+				for port, p := range t.Outs {
+					if t.Streams[port] {
+						continue
+					}
+					fp := mon.RootRel(root, p)
+					if _, ok := snap[fp]; !ok {
+						continue
+					}
+					n++
+					if _, err := mon.LoadAudit(filepath.Join(root, fp+".audit.json")); err != nil {
+						c.Violation("finalized-output-without-valid-audit-file", fmt.Sprintf("killed at %s: %s is at its final path but its audit file is missing or not valid JSON (%v)", k.cp.Point, p, err),
+							map[string]interface{}{"spec": s, "crash": k.cp})
+						return
+					}
+				}
+			}
+			c.Count("finalized_outputs_checked_after_kill", n)
+			if n > 0 {
+				c.Nontrivial(fmt.Sprintf("kill|%s|%v|%s#%d", k.tc.kind, k.tc.gof, k.cp.Point, k.cp.N))
+			}
+		})
+	}
 	c.Finish()
 }
 
